@@ -577,7 +577,69 @@ impl Hist {
         (amount, limit, exact_in, a_to_b)
     }
 
+    /// A swap whose specified amount runs out exactly when the price reaches an initialized tick (or one unit
+    /// before / after that): the amount is learned on a clone by swapping up to that tick with a price limit,
+    /// then the real swap carries that amount (+-1) with no limit, the same limit, or a limit further away.
+    /// Returns false when no such swap could be set up (no initialized tick ahead, learning run failed).
+    pub fn op_swap_exactly_to_tick(&mut self, w: &mut World, p: usize, monitors: &mut [Box<dyn Monitor>], acc: &mut Acc) -> bool {
+        let st = w.pool_state(p);
+        let s = st.tick_spacing as i32;
+        let a_to_b: bool = w.r.gen();
+        let exact_in = rnd::chance(&mut w.r, 2, 3);
+        let mut inits: Vec<i32> = World::scan_tick_arrays(&w.bank, &w.pools[p].key)
+            .values()
+            .filter_map(|(_, r)| r.as_ref().ok())
+            .flat_map(|ta| ta.ticks.iter().enumerate().filter(|(_, t)| t.initialized).map(|(i, _)| ta.start_tick_index + i as i32 * s).collect::<Vec<_>>())
+            .filter(|t| if a_to_b { sqrt_price_from_tick_index(*t) < st.sqrt_price } else { sqrt_price_from_tick_index(*t) > st.sqrt_price })
+            .collect();
+        if inits.is_empty() {
+            return false;
+        }
+        inits.sort();
+        if a_to_b {
+            inits.reverse();
+        }
+        let target = inits[w.r.gen_range(0..inits.len().min(3))];
+        let limit = sqrt_price_from_tick_index(target);
+        let u = w.r.gen_range(0..w.users.len());
+        let v2: bool = w.r.gen();
+        let pool = w.pools[p].clone();
+        let (acct_in, acct_out) = if a_to_b { (w.user_token(u, pool.mint_a), w.user_token(u, pool.mint_b)) } else { (w.user_token(u, pool.mint_b), w.user_token(u, pool.mint_a)) };
+        let bal = |bk: &crate::svm::Bank, k: &Pubkey| crate::monitors::swapmon::bal(bk, k);
+        let learn = w.swap_ix(p, u, u64::MAX / 16, if exact_in { 0 } else { u64::MAX }, limit, exact_in, a_to_b, v2);
+        let pre = w.bank.clone();
+        let (o, b2) = w.simulate(&pre, &learn);
+        if !o.ok() {
+            return false;
+        }
+        let reached = b2.data(&pool.key).and_then(codec::Pool::decode).map(|q| q.sqrt_price == limit).unwrap_or(false);
+        let used = if exact_in { bal(&pre, &acct_in) - bal(&b2, &acct_in) } else { bal(&b2, &acct_out) - bal(&pre, &acct_out) };
+        if !reached || used == 0 {
+            return false;
+        }
+        let amount = match w.r.gen_range(0..6) {
+            0 => used.saturating_sub(1).max(1),
+            1 => used.saturating_add(1),
+            _ => used,
+        };
+        let real_limit = match w.r.gen_range(0..4) {
+            0 => limit,
+            1 => {
+                let t = (target + if a_to_b { -s * 5 } else { s * 5 }).clamp(MIN_TICK_INDEX, MAX_TICK_INDEX);
+                sqrt_price_from_tick_index(t)
+            }
+            _ => 0,
+        };
+        acc.count("swaps_with_amount_ending_on_a_tick");
+        let ix = w.swap_ix(p, u, amount, if exact_in { 0 } else { u64::MAX }, real_limit, exact_in, a_to_b, v2);
+        self.step(w, ix, monitors, acc);
+        true
+    }
+
     pub fn op_swap(&mut self, w: &mut World, p: usize, monitors: &mut [Box<dyn Monitor>], acc: &mut Acc) {
+        if rnd::chance(&mut w.r, 1, 7) && self.op_swap_exactly_to_tick(w, p, monitors, acc) {
+            return;
+        }
         let (amount, limit, exact_in, a_to_b) = self.gen_swap(w, p);
         let u = w.r.gen_range(0..w.users.len());
         let threshold = if exact_in { 0 } else { u64::MAX };
